@@ -32,16 +32,16 @@ Section Loops.
         cbn [oneof_loop] in On. apply andb_prop in On as [O1 O2]. cbn [lazy_loop] in Lz. apply andb_prop in Lz as [L1 L2].
         cbn [length] in L. injection L as L.
         destruct (IH fs (Datatypes.S i)) as [IHe IHq]; try assumption.
-        { intros k g Hk. replace (Datatypes.S i + k)%nat with (i + Datatypes.S k)%nat by lia. exact (G (Datatypes.S k) g Hk). }
+        { intros k g Hk. assert (E : (Datatypes.S i + k = i + Datatypes.S k)%nat) by (clear; lia). rewrite E. exact (G (Datatypes.S k) g Hk). }
         { intros y Hy. apply S. right. exact Hy. }
         rewrite norm_raw_cons. cbn [enc_loop eq_loop]. rewrite IHe, IHq, andb_true_r.
         pose proof (G O f eq_refl) as G0. rewrite Nat.add_0_r in G0. rewrite G0.
         rewrite norm_field_is_sel.
         assert (SO : sel_ok f (group_selects cur f i) x).
-        { unfold sel_ok, group_selects. destruct (fgroup f) as [g|].
-          - split; [discriminate|]. split; [eauto|]. intros s E. unfold group_selects in O1. inversion E; subst s.
-            destruct (fgroup f); [|]; apply eqb_prop; exact O1 || exact O1.
-          - split; [reflexivity|]. split; [discriminate|discriminate]. }
+        { unfold sel_ok. split; [|split].
+          - unfold group_selects. intros ->. reflexivity.
+          - intros g0 E. unfold group_selects. rewrite E. eauto.
+          - intros s0 E. rewrite E in O1. apply eqb_prop in O1. exact O1. }
         assert (Sx : (pv_size x < n)%nat) by (apply S; left; reflexivity).
         rewrite (head_enc sc n WS IHo ng f _ x W1 SO Sx F1 G1 L1).
         rewrite (head_eq sc n WS IHo ng f _ x W1 SO Sx F1 G1 L1 N1 D1).
@@ -62,7 +62,7 @@ Section Loops.
     unfold local_nan_ok in Hnan. unfold local_dicts_ok in Hdict. cbn [oraw] in Hnan, Hdict.
     pose proof (wf_fields sc c WS) as W.
     pose proof (group_selects_norm sc c g raw W Hgl Hl Hone F) as G.
-    rewrite norm_obj_unfold, post_init_unfold. unfold set_sow.
+    unfold rt_ok. rewrite norm_obj_unfold, post_init_unfold. unfold set_sow.
     destruct (loops_rt n IHn g
                 (cur_loop O (cfields (get_class sc c)) (norm_raw sc g O raw (cfields (get_class sc c)))
                           (repeat None (cngroups (get_class sc c))))
